@@ -83,7 +83,12 @@ def tagchilds_table(prog: Program) -> Dict[str, Any]:
     rets = [l for l in summary if l not in pre and l.kind == "return"]
     cfg = Config()
     cfg.opaque = {"flatten"}
-    cfg.stop_at_loop = ("_tagchilds_to_tagnodes", 0)
+    key = None
+    for l0 in summary:
+        for rec0 in l0.run.loops:      # the per-item loop, in the function itself or in a helper / generator it consumes
+            if key is None:
+                key = rec0.__dict__.get("loop_key")
+    cfg.stop_at_loop = key or ("_tagchilds_to_tagnodes", 0)
     leaves = I.run_function(CORE, "_tagchilds_to_tagnodes", mk, cfg)
     for l in leaves:
         rec = getattr(l.run, "stop_loop_record", None)
